@@ -35,6 +35,8 @@ def configs(tier, seed):
         dict(name="control-copy kernel", h="kernel", nT=3, D=2, N=3),
         dict(name="combo arity1 symbolic-ids", h="combo1", nS=2, nT=3, D=2, N=2, symbolic_ids=True),
     ]
+    for T in ((65, 130) if q else (1, 2, 7, 33, 64, 65, 100, 128, 129, 130, 257, 300)):
+        out.append(dict(name="helpers on %d posterior samples" % T, h="helpers_many", T=T, N=2, nT=2))
     if not q:
         out.append(dict(name="combo arity2 symbolic-ids one row", h="combo2", nS=2, nT=3, D=1, N=1, symbolic_ids=True))
     return out
@@ -53,6 +55,11 @@ def fixtures(cfg):
             v["s%d" % i] = r.randrange(nS)
             v["a%d" % i] = r.randrange(-1, nT)
             v["b%d" % i] = r.randrange(-1, nT)
+        if cfg["h"] == "helpers_many":
+            for t in range(cfg["T"]):
+                for i in range(cfg["N"]):
+                    v["hm%d_%d" % (t, i)] = r.uniform(-1.5, 1.5)
+                    v["hv%d_%d" % (t, i)] = r.uniform(0.01, 0.99)
         v["prec"] = 2.5
         for t in range(4):
             v["prec%d" % t] = 0.5 + t
@@ -319,6 +326,56 @@ def h_helpers(ctx, cfg):
     return T
 
 
+class _StubTheta:
+    """a posterior sample reduced to what the averaging helpers read: its predictions on the screen"""
+
+    def __init__(self, np, mean, viab, prec):  # prec: the value reported as this sample's variance
+        self.np, self.mean, self.viab, self.prec = np, mean, viab, prec
+
+    def predict_conditional_mean(self, data):
+        return self.np.array(self.mean, dtype=float)
+
+    def predict_viability(self, data):
+        return self.np.array(self.viab, dtype=float)
+
+    def predict_conditional_variance(self, data):
+        return self.np.array([self.prec] * len(self.mean), dtype=float)
+
+
+def h_helpers_many(ctx, cfg):
+    """the helpers on collections whose size passes every plausible internal block size: exact mean, holder order"""
+    np = ctx.np
+    core = ctx.mod("batchie.core")
+    mm = ctx.mod("batchie.models.main")
+    T, N = cfg["T"], cfg["N"]
+    holder = core.ThetaHolder(n_thetas=T)
+    mean = [[ctx.real("hm%d_%d" % (t, i)) for i in range(N)] for t in range(T)]
+    viab = [[ctx.real("hv%d_%d" % (t, i)) for i in range(N)] for t in range(T)]
+    for t in range(T):
+        holder.add_theta(_StubTheta(np, mean[t], viab[t], 1.0 + t))
+    data = _Data(np, [0] * N, [[0, 1]] * N, 2)
+    va = mm.predict_viability_all(data, holder).tolist()
+    ma = mm.predict_mean_all(data, holder).tolist()
+    vr = mm.predict_variance_all(data, holder).tolist()
+    mavg = mm.predict_mean_avg(data, holder).tolist()
+    vavg = mm.predict_viability_avg(data, holder).tolist()
+    ctx.observe("mavg", mavg)
+    ctx.prove(len(va) == T and len(ma) == T and len(vr) == T, "one row per posterior sample")
+    ok_rows = True
+    for t in range(T):
+        for i in range(N):
+            ok_rows = ctx.And(ok_rows, ctx.eq(va[t][i], viab[t][i]), ctx.eq(ma[t][i], mean[t][i]), ctx.eq(vr[t][i], 1.0 + t))
+    ctx.prove(ok_rows, "the *_all helpers return sample t's prediction in row t (holder order) for every t")
+    for i in range(N):
+        sm, sv = 0.0, 0.0
+        for t in range(T):
+            sm = sm + mean[t][i]
+            sv = sv + viab[t][i]
+        ctx.prove(ctx.eq(mavg[i] * T, sm), "predict_mean_avg is the exact mean over posterior samples", key="predict_mean_avg is not the mean (many samples)")
+        ctx.prove(ctx.eq(vavg[i] * T, sv), "predict_viability_avg is the exact mean over posterior samples", key="predict_viability_avg is not the mean (many samples)")
+    return T
+
+
 def h_kernel(ctx, cfg):
     """copy_array_with_control_treatments_set_to_zero: gather copy, zero exactly the control rows, source untouched"""
     np = ctx.np
@@ -350,4 +407,4 @@ def run(ctx, cfg):
         return h_combo(ctx, cfg, 2)
     if h == "combo1":
         return h_combo(ctx, cfg, 1)
-    return {"inter": h_inter, "inter_viab": h_inter_viab, "helpers": h_helpers, "kernel": h_kernel}[h](ctx, cfg)
+    return {"inter": h_inter, "inter_viab": h_inter_viab, "helpers": h_helpers, "helpers_many": h_helpers_many, "kernel": h_kernel}[h](ctx, cfg)
